@@ -369,7 +369,26 @@ class thread_run_payload:
     raises = {"BaseException": lambda c, self, payload, exc: _passes_through(c, payload.t, 0, exc=exc)}
 
 
-@contract(RUN + "asyncio_runner:AsyncioRunner.run_payload", props=["C10", "C11"])
+def _on_own_loop(c, self):
+    return c.And(ev_kind(c, 0, "run_coroutine_threadsafe"), Event.e_a(c.event_at(0)) == self.asyncio_loop.t, c.event_at(1) == c.event("on-loop-thread", self.asyncio_loop),
+                 Event.e_kind(c.event_at(2)) == c.ctx.E.event_kind("payload"), c.n_events() == 4)
+
+
+@contract(RUN + "asyncio_runner:AsyncioRunner.run_payload#on-the-loop-thread", props=["C11"], body_key=RUN + "asyncio_runner:AsyncioRunner.run_payload")
+class asyncio_run_payload_confined:
+    """C11's part of execute: whatever the outcome, the coroutine runs on the runner's own loop (thread), nowhere else
+    (the outcome-identity clause of the same function belongs to C10)"""
+    params = dict(self=AsyncR, payload=APayload)
+    has_events = True
+    result = TAny()
+
+    def ensures(c, self, payload, result):
+        return {"submitted-to-the-runners-own-loop-and-run-there-once": _on_own_loop(c, self)}
+
+    raises = {"BaseException": lambda c, self, payload, exc: _on_own_loop(c, self)}
+
+
+@contract(RUN + "asyncio_runner:AsyncioRunner.run_payload", props=["C10"])
 class asyncio_run_payload:
     params = dict(self=AsyncR, payload=APayload)
     has_events = True
